@@ -284,13 +284,41 @@ def run(repo, chk):
                 chk.expect(dd == ['self.state_data[label] = asm.WordDirective(ret.value.value)'], 'C13.B3',
                            'make_global[word scalar]', f'{dd}', GEN)
     chk.floor('make_global data paths', n3, 3)
-    aga = gf.methods['add_global_array']
-    t = src(aga)
-    ok = 'data_dict = self.const_data if const else self.state_data' in t and 'data_dict[label] = directive' in t and \
-        'return ArrayRef(ConcreteArrayType(el_type, access), label, asm.IntLiteral(length))' in t and \
-        'access = AccessMode.RC if const else AccessMode.RW' in t
-    chk.expect(ok, 'C13.B3', 'add_global_array', 'directive stored under its label in the section matching constness; '
-               'reference = (label, IntLiteral(length))', GEN)
+    # add_global_array, interpreted for both constness values and every element type at two word sizes: the directive is
+    # stored under the returned label in the section matching constness, the reference is (label, IntLiteral(length))
+    symns = it.load('hidc/codegen/symbols.py')
+    DTs = symns['DataType']
+    bad = None
+    n_ok = 0
+    for ws in (2, 4):
+        for const in (True, False):
+            for dt in (DTs.INT, DTs.BYTE, DTs.BOOL):
+                g = object.__new__(CG)
+                g.word_size = ws
+                g.const_data, g.state_data, g.numbered_labels = {}, {}, {}
+                directive = object()
+                try:
+                    ref = g.add_global_array(const, dt, 'arr', 5, directive, None)
+                except Exception as e:      # noqa: BLE001
+                    bad = f'add_global_array(const={const}, {dt}, length 5) raised {type(e).__name__}: {e}'
+                    break
+                here, other = (g.const_data, g.state_data) if const else (g.state_data, g.const_data)
+                label = next(iter(here), None)
+                want_mode = symns['AccessMode'].RC if const else symns['AccessMode'].RW
+                if other or len(here) != 1 or here[label] is not directive:
+                    bad = f'const={const}: const_data={list(g.const_data)} state_data={list(g.state_data)}'
+                elif ref.origin != label or getattr(ref.length, 'data', None) != 5 or type(ref.length).__name__ != 'IntLiteral':
+                    bad = f'reference origin={ref.origin} length={ref.length}, stored label {label}'
+                elif ref.type.el_type != dt or ref.type.access != want_mode:
+                    bad = f'reference type {ref.type} for const={const}, {dt}'
+                else:
+                    n_ok += 1
+            if bad:
+                break
+        if bad:
+            break
+    chk.expect(bad is None and n_ok == 12, 'C13.B3', 'add_global_array', bad or 'directive stored under its label in the section '
+               'matching constness; reference = (label, IntLiteral(length)), access RC / RW', GEN)
     # literal arm: const + all primitive -> global
     lit = [(p, ev) for p, ev in gf.inlined('eval_expr') if F.arm_of(ev, len(ev) - 1).startswith('ArrayLiteral')]
     g = [ev for p, ev in lit if any(e.kind == 'call' and e.func == 'self.make_global' for e in ev)]
